@@ -3,7 +3,7 @@
     types and andb/orb are inlined; positive/N/Z/nat stay the inductive types. *)
 From Coq Require Extraction ExtrOcamlBasic.
 From Chess Require Import Proofs.GenInterface.
-From Chess Require Import Spec.Rules Spec.Text Spec.Draw Model.Board Model.MoveGen Model.Fen Model.San Model.Game Model.CacheTable.
+From Chess Require Import Spec.Rules Spec.Text Spec.Draw Model.Board Model.MoveGen Model.Fen Model.San Model.Game Model.CacheTable Model.Extra Model.Perft.
 Extraction Language OCaml.
 Extraction "/verif/build/ocaml/model.ml"
   (* Base *) bit lnot64 mul64 squares_of popcnt to_square trailing_zeros bswap64 pext64 pdep64 M64 all_sq
@@ -24,4 +24,7 @@ Extraction "/verif/build/ocaml/model.ml"
              new_with_board current_position side_to_move result g_make_move g_offer_draw g_resign
              g_accept_draw g_declare_draw can_declare_draw
              ct_new ct_get ct_add ct_replace_if
-             test_interfaces.
+             test_interfaces
+             cmove_cmp file_from_str rank_from_str set_piece clear_square board_default game_new bitboard_display
+             movegen_perft board_enumerate_moves board_from_fen game_from_str game_new_from_fen
+             bb_setup bb_side_to_move bb_castle_rights bb_piece bb_clear_square bb_en_passant bb_get_castle_rights bb_index.
